@@ -33,8 +33,10 @@ fn pm(target: [u8; 20], seq: i64, sig0: u8, cas: Option<i64>) -> PutRequestSpeci
 }
 
 //@ ob: C17.O1
+//@ rss: 6.3
+//@ time: 174
 //@ tier: quick
-//@ cap: 1500
+//@ cap: 800
 //@ standins: tracing lru vcoll
 //@ desc: check_concurrency_errors with one in-flight put_mutable for the same target: identical signature => Ok (both calls share the in-flight write); lower seq => NotMostRecent; different item without cas => ConflictRisk; cas equal to the in-flight seq => Ok and the in-flight write is superseded (removed); any other cas => CasFailed; the in-flight write is removed in no other row
 //@ bounds: full i64 seq1/seq2/cas; signatures differ or not via one symbolic byte; unwind 66 (64-byte signature compare)
@@ -74,8 +76,10 @@ fn c17_o1_conflict_table() {
 }
 
 //@ ob: C17.O1b
+//@ rss: 5.6
+//@ time: 172
 //@ tier: quick
-//@ cap: 1500
+//@ cap: 800
 //@ standins: tracing lru vcoll
 //@ desc: no conflict is reported when the in-flight put is for a different target, when the in-flight put is not a put_mutable, or when the new request is not a put_mutable; nothing is removed
 //@ bounds: three symbolic scenario bits; symbolic seqs/cas; unwind 66
@@ -131,8 +135,10 @@ fn any_request(kind: u8, target: Id) -> RequestSpecific {
 }
 
 //@ ob: C18.O1
+//@ rss: 3.6
+//@ time: 133
 //@ tier: quick
-//@ cap: 1800
+//@ cap: 800
 //@ standins: tracing lru vcoll
 //@ desc: a client-mode node never replies to any request and never hands it to the storage server, never adds the requester to a routing table; a server-mode node hands every request to the server exactly once and relays its reply
 //@ bounds: request kind symbolic among ping / find_node / get_peers / get / announce_peer; requester read_only flag and version symbolic; server_mode symbolic; bootstrap list non-empty; unwind 26
@@ -169,7 +175,7 @@ fn c18_o1_client_mode_silent() {
 }
 
 //@ ob: C18.O2
-//@ tier: quick
+//@ tier: thorough
 //@ cap: 2400
 //@ standins: tracing lru vcoll
 //@ desc: a request adds its sender to a routing table only if the node is in server mode, the requester is not read-only and the request is find_node: into the main table only when the node has no bootstrap list (first node of a network), into the signed-peers table only when the requester's version supports signed peers ('RS' >= 00 06); read-only requesters are never inserted
@@ -207,7 +213,7 @@ fn c18_o2_learning_from_requests() {
 }
 
 //@ ob: C18.O5a
-//@ tier: quick
+//@ tier: thorough
 //@ cap: 2400
 //@ standins: tracing lru vcoll
 //@ desc: adaptive chain, step 1: when a finished lookup's best-voted address differs from the known public address (or none is known) cleanup_done_queries returns it for a confirming self-ping, records it and sets firewalled; when it equals the known address nothing is returned and the flags are unchanged; without votes nothing happens
@@ -251,7 +257,7 @@ fn c18_o5a_address_vote() {
 }
 
 //@ ob: C18.O5b
-//@ tier: quick
+//@ tier: thorough
 //@ cap: 2400
 //@ standins: tracing lru vcoll
 //@ desc: adaptive chain, step 2: a ping request arriving from exactly the recorded public address clears firewalled (and re-keys both tables with a BEP42 id iff the current id is not valid for that IP); any other request, or a ping from any other address, leaves firewalled unchanged (NAT case: the self-ping never arrives)
@@ -297,8 +303,10 @@ fn c18_o5b_self_ping() {
 }
 
 //@ ob: C14.O3
+//@ rss: 0.9
+//@ time: 55
 //@ tier: quick
-//@ cap: 1200
+//@ cap: 800
 //@ standins: tracing lru vcoll
 //@ desc: maintenance timers: should_ping_table() <=> more than 300 s since the last ping round; should_refresh_table() <=> more than 900 s since the last refresh; update_* reset them
 //@ bounds: symbolic whole-second instants; unwind 26
@@ -326,7 +334,7 @@ fn c14_o3_maintenance_timers() {
 }
 
 //@ ob: C14.O2
-//@ tier: quick
+//@ tier: thorough
 //@ cap: 2400
 //@ standins: tracing lru vcoll
 //@ desc: one ping round: check_nodes_to_ping_and_remove_stale_nodes removes exactly the entries not heard from for more than 900 s and returns exactly the addresses of the kept entries not heard from for more than 10 s (so a peer that answered less than 15 minutes ago survives every round and a silent one is gone at the first round after 15 minutes)
@@ -393,7 +401,7 @@ fn c14_o2_ping_round() {
 }
 
 //@ ob: C06.O3b
-//@ tier: quick
+//@ tier: thorough
 //@ cap: 2400
 //@ standins: tracing lru vcoll
 //@ also: C08
@@ -507,7 +515,7 @@ fn expected_counts(kinds: &[Option<u8>; 2]) -> (usize, usize, usize, usize) {
 }
 
 //@ ob: C20.O1
-//@ tier: quick
+//@ tier: thorough
 //@ cap: 2700
 //@ mem: 20
 //@ standins: tracing lru vcoll
